@@ -1301,12 +1301,15 @@ class LambdaAssignParser(BaseAssignParser, CellsInputDataMixin):
                 compinst.append(inst_doc)
 
             elif isinstance(next_node, ast.Assign) and (
-                    next_node.first_token.string == "_allow_none"):
+                    next_node.first_token.string
+                    in ("_allow_none", "_is_cached")):
+                # Remove "_"
+                property_name = (next_node.first_token.string)[1:]
                 value = ast.literal_eval(self.atok.get_text(next_node.value))
                 inst_allow_none = Instruction.from_method(
                     obj=inst,
                     method="set_property",
-                    args=("allow_none", value)
+                    args=(property_name, value)
                 )
                 compinst.append(inst_allow_none)
 
